@@ -81,7 +81,7 @@ pub fn valid_record<K: Fam>(fam: FamId, s: &Snap, enr: &enr::Enr<K>) -> Result<(
 
 pub fn describe_step<K: Fam>(cx: &StepCx<K>) -> String {
     match cx.op {
-        None => format!("step 0 (initial record via {}, family {})", match cx.h.init { Init::Builder { .. } => "builder", Init::Decoded { .. } => "decode" }, cx.h.fam.name()),
+        None => format!("step 0 (initial record via {}, family {})", match cx.h.init { Init::Builder { .. } => "builder", Init::BuilderReuse { .. } => "re-used builder", Init::Decoded { .. } => "decode" }, cx.h.fam.name()),
         Some(op) => format!("step {} ({}, family {}, signer key {:?}) -> {}", cx.idx, op.name(), cx.h.fam.name(), op.signer(), short_res(cx.res)),
     }
 }
@@ -100,6 +100,7 @@ pub fn label_history(h: &History, st: &mut Stats) {
     st.label(&format!("fam:{}", h.fam.name()));
     st.label(match h.init {
         Init::Builder { .. } => "init:builder",
+        Init::BuilderReuse { .. } => "init:builder-reuse",
         Init::Decoded { .. } => "init:decoded",
     });
     st.label(&format!("ops:{}", match h.ops.len() {
